@@ -195,8 +195,15 @@ async fn apply_version(
             }
         }
         if let Some(o) = svr_op {
-            if let Err(e) = apply::apply_op(txn, &o).await {
-                warn!("Invalid operation when syncing: {e} (ignored)");
+            match apply::apply_op(txn, &o).await {
+                Ok(()) => {}
+                // An operation that does not make sense in the current state is ignored..
+                Err(e @ Error::Database(_)) => {
+                    warn!("Invalid operation when syncing: {e} (ignored)");
+                }
+                // ..but a failure of the storage backend is not: the local state would silently
+                // lack this operation while the base version moves past it.
+                Err(e) => return Err(e),
             }
             transformed_server_ops.push(o);
         }
